@@ -51,7 +51,7 @@ CLAIMED = {
          "bounded symbolic execution of the real factorization code with CBMC against structural postconditions", "5/C08"),
  "C01": ("proof",
          "UNBOUNDED: window lemmas for the retrace steps a_avl_handle_growth / a_avl_handle_shrink (incl. both rotations) for the successor splice a_avl_handle_remove (spine depth <= 2; also through a_avl_remove with the retrace step replaced by a recording contract), and glue lemmas showing that a_avl_insert_adjust and the simple unlink of a_avl_remove hand exactly the step invariant to the first retrace step (or finish with a valid tree), and the descent loops of a_avl_search / a_avl_insert under loop contracts with ghost key intervals (a wrong turn leaves the interval; resident key: returned, nothing written; new key: linked into an empty slot on the right side, rebalancing started once), packed parent word: for boundary subtrees of every height the rebalanced window is a valid AVL search tree of the expected height with intact parent links, or the step invariant holds one level up (induction over the climb loop on paper); packed-word accessors for all pointers/factors. BOUNDED: the real a_avl_insert / a_avl_remove / a_avl_search run by CBMC on EVERY valid AVL tree of depth <= 3 (<= 7 nodes, one unit per tree shape; keys, inserted key position and removed node symbolic; a sample (every 16th) of the depth-4 shapes = up to 15 nodes in the thorough tier): afterwards a recursive checker over the actual links shows search order, parent links pointing back, |height difference| <= 1 and stored balance factor == difference; node count and lookups give the element set; duplicate insertion returns the resident node and changes no link; lookup finds exactly the present keys. The bounded units are labelled bounded and not counted as discharged.",
-         "trusted: cbmc 6.11.0 + CaDiCaL; whole-tree units use the unpacked node layout (A_SIZE_POINTER=1), packed layout: accessor proofs + thorough-tier depth-2 units; histories by induction over operations on paper; trees deeper than the bound not covered",
+         "trusted: cbmc 6.11.0 + CaDiCaL; whole-tree units use the unpacked node layout (A_SIZE_POINTER=1), packed layout: accessor proofs + all lemma units; histories by induction over operations on paper; trees deeper than the bound not covered",
          "bounded exhaustive symbolic execution with CBMC of the real tree code against the full representation invariant", "5/C01"),
  "C02": ("proof",
          "UNBOUNDED: inductive-step lemmas for both fix-up loops (a_rbt_insert_adjust cases 1-3 and mirrors; a_rbt_remove_adjust cases 1-4 and mirrors; packed parent/colour word) on windows whose boundary subtrees carry ghost black heights of every size, entered at the loop head through the A_VERIF_HOOK sites: terminating paths give a valid red-black window with the old black height, the continuing path re-establishes the loop invariant one level up; the library's A_ASSUME statements are proved, not assumed; a further lemma shows that a_rbt_remove (all unlink cases, successor up to two levels down the spine) either ends with a valid tree or reaches the fix-up loop head in a state satisfying that loop's invariant; the descent loops of a_rbt_search / a_rbt_insert under loop contracts with ghost key intervals (as for the AVL tree); accessors for all pointers/colours. BOUNDED: the real a_rbt_insert / a_rbt_remove / a_rbt_search run by CBMC on EVERY valid red-black tree of depth <= 3 (one unit per shape; colours, keys, inserted key position and removed node symbolic; a sample (every 16th) of the depth-4 shapes in the thorough tier): afterwards a recursive checker shows search order, parent links, black root, no red node with a red child, equal black heights; node count and lookups give the element set; duplicates and lookup as for C01. The bounded units are labelled bounded and not counted as discharged.",
